@@ -620,6 +620,16 @@ func c09GenEp(out *emit.Out, r *rand.Rand, thorough bool) {
 			for _, b := range [][]byte{{}, {0}, {0, 0}, {0, 1, 0x30}, {0, 2, 0x30, 0}, {0xff, 0xff, 0xff, 0xff}} {
 				add("substituted-"+name, with(cfg, mut(c09Mut{Kind: "body", Data: hx(b)})))
 			}
+			// well-framed bodies whose INNER vectors end with a stray byte or announce more than they hold
+			for _, b := range map[string][][]byte{
+				"CR":   {{2, 1, 0x40, 0, 1, 0}, {2, 1, 0x40, 0, 3, 0, 1, 0x41}, {1, 1, 0, 1, 0}, {2, 1, 0x40, 0, 2, 0, 5}, {2, 1, 0x40, 0, 4, 0, 1, 0x41, 0}},
+				"CERT": {{0, 0, 5, 0, 0, 2, 0, 0}, {0, 0, 2, 0, 0}, {0, 0, 1, 0}, {0, 0, 4, 0, 0, 5, 1}, {0, 0, 6, 0, 0, 1, 0x30, 0, 0}},
+				"SKX":  {{0, 1}, {0, 5, 0x30}, {3, 0, 0x29, 65}, {3, 0, 0x29, 1, 4, 0, 1}},
+				"CKX":  {{0, 1}, {0, 5, 0x30}, {3, 0, 0x29, 65}, {3, 0, 0x29, 1, 4}},
+				"CV":   {{0, 1}, {0, 9, 0x30}, {0}},
+			}[name] {
+				add("inner-length-"+name, with(cfg, mut(c09Mut{Kind: "body", Data: hx(b)})))
+			}
 			rb := make([]byte, n)
 			for k := range rb {
 				rb[k] = byte(r.IntN(256))
